@@ -28,6 +28,13 @@ Node(kind, sarg, largs, attrs, children) ==
 Attr(n, v) == [n |-> n, v |-> v]
 
 AllUnparseDevs == {"CaptionContentOnOwnLine", "DefinitionDropped"}
+\* What-if switches (never part of a Dev the harness passes; MC_Unparse_E.cfg lets TLC show that
+\* each of them breaks the in-model round trip on the empty-part universe): ways an emitter can
+\* mistake an EMPTY argument (the empty child list) for an ABSENT one
+\*   "ColonNeedsNonEmptyArgument"     the ':' after a parser-function name only when some argument has content
+\*   "TrailingEmptyArgumentsDropped"  separators of empty arguments at the end of a list are not written
+\*   "EmptyArgumentsSkipped"          only arguments with content are joined
+WhatIfEmptyArgDevs == {"ColonNeedsNonEmptyArgument", "TrailingEmptyArgumentsDropped", "EmptyArgumentsSkipped"}
 
 RECURSIVE Concat(_)
 Concat(ss) == IF ss = <<>> THEN <<>> ELSE Head(ss) \o Concat(Tail(ss))
@@ -76,16 +83,24 @@ AttrsText(attrs) ==
            one == IF a.v = "" THEN <<a.n>> ELSE <<a.n, "=", "\"", a.v, "\"">>
        IN IF Len(attrs) = 1 THEN one ELSE one \o <<"SP">> \o AttrsText(Tail(attrs))
 
-RECURSIVE Unparse(_, _), UnparseList(_, _), JoinArgs(_, _, _)
+RECURSIVE Unparse(_, _), UnparseList(_, _), JoinArgs(_, _, _), JoinAll(_, _, _)
 
 \* recurse() on a list / tuple
 UnparseList(xs, Dev) == IF xs = <<>> THEN <<>> ELSE Unparse(Head(xs), Dev) \o UnparseList(Tail(xs), Dev)
 
 \* sep.join(map(recurse, largs))
-JoinArgs(largs, sep, Dev) ==
+RECURSIVE DropTrailingEmpty(_)
+DropTrailingEmpty(largs) == IF largs # <<>> /\ largs[Len(largs)] = <<>> THEN DropTrailingEmpty(SubSeq(largs, 1, Len(largs) - 1)) ELSE largs
+JoinAll(largs, sep, Dev) ==
   IF largs = <<>> THEN <<>>
   ELSE IF Len(largs) = 1 THEN UnparseList(largs[1], Dev)
   ELSE UnparseList(largs[1], Dev) \o sep \o JoinArgs(Tail(largs), sep, Dev)
+JoinArgs(largs, sep, Dev) ==
+  IF Dev \cap WhatIfEmptyArgDevs = {} THEN JoinAll(largs, sep, Dev)
+  ELSE IF "EmptyArgumentsSkipped" \in Dev /\ largs # <<>> /\ largs[1] = <<>> THEN JoinArgs(Tail(largs), sep, Dev)
+  ELSE IF "EmptyArgumentsSkipped" \in Dev /\ Len(largs) > 1 /\ largs[2] = <<>> THEN JoinArgs(<<largs[1]>> \o SubSeq(largs, 3, Len(largs)), sep, Dev)
+  ELSE IF "TrailingEmptyArgumentsDropped" \in Dev /\ largs # <<>> /\ largs[Len(largs)] = <<>> THEN JoinArgs(DropTrailingEmpty(largs), sep, Dev)
+  ELSE JoinAll(largs, sep, Dev)
 
 \* recurse(node): node may be a string child, a node, or a (wrapped) list of those
 Unparse(x, Dev) ==
@@ -114,7 +129,8 @@ Unparse(x, Dev) ==
        [] kind = "TEMPLATE_ARG" -> <<"{", "{", "{">> \o JoinArgs(x.largs, <<"|">>, Dev) \o <<"}", "}", "}">>
        [] kind = "PARSER_FN" ->
             <<"{", "{">> \o UnparseList(x.largs[1], Dev)
-              \o (IF Len(x.largs) > 1 THEN <<":">> ELSE <<>>)
+              \o (IF Len(x.largs) > 1 /\ ("ColonNeedsNonEmptyArgument" \notin Dev \/ \E k \in 2..Len(x.largs) : x.largs[k] # <<>>)
+                  THEN <<":">> ELSE <<>>)
               \o JoinArgs(Tail(x.largs), <<"|">>, Dev) \o <<"}", "}">>
        [] kind = "URL" ->
             <<"[">> \o JoinArgs(x.largs, <<"SP">>, Dev) \o <<"]">>
